@@ -133,6 +133,12 @@ MUTANTS: List[Tuple[str, List[str], List[Tuple[str, str, str]], str]] = [
      "exception thrown into dependencies regardless of propagate_exceptions"),
     ("skip-close-on-noresult", ["C12"], [(R, "            await dep_ctx.close(*args)", "            if not isinstance(found_exception, NoResultError):\n                await dep_ctx.close(*args)")],
      "dependencies never torn down for a no-result outcome"),
+    ("skip-first-run-ignored", ["C15"], [(SR, "    if args.skip_first_run:", "    if False and args.skip_first_run:")],
+     "`taskiq scheduler --skip-first-run` polls and sends at once"),
+    ("skip-first-run-always", ["C15"], [(SR, "    if args.skip_first_run:", "    if args.skip_first_run or True:")],
+     "`taskiq scheduler` never runs the first partial minute"),
+    ("skip-first-run-truncated", ["C15"], [(SR, "        await asyncio.sleep(delay.total_seconds())\n        logger.info(\"First run skipped", "        await asyncio.sleep(delay_secs)\n        logger.info(\"First run skipped")],
+     "--skip-first-run waits whole seconds only: the loop starts up to 1 s before the boundary and evaluates the old minute"),
     ("revert-F17", ["C15"], [(SR, "                except (ValueError, ZeroDivisionError):", "                except ValueError:")],
      "reverts fix 424741d: a zero-step cron stops the scheduler loop"),
     ("bad-cron-skips-rest-of-source", ["C15"], [(SR, "                        task.schedule_id,\n                    )\n                    continue", "                        task.schedule_id,\n                    )\n                    break")],
